@@ -6,7 +6,9 @@
 package main
 
 import (
+	"errors"
 	"fmt"
+	"io"
 	"math/big"
 	"sort"
 	"strings"
@@ -28,21 +30,35 @@ type txtReg struct {
 
 var txtRegs = []txtReg{
 	{"TXT.STS", 0x0, 8, func(d registers.TXTConfigSpace) (registers.Register, error) { return registers.ReadTXTStatus(d) }},
-	{"TXT.ESTS", 0x8, 1, func(d registers.TXTConfigSpace) (registers.Register, error) { return registers.ReadTXTErrorStatusRegister(d) }},
+	{"TXT.ESTS", 0x8, 1, func(d registers.TXTConfigSpace) (registers.Register, error) {
+		return registers.ReadTXTErrorStatusRegister(d)
+	}},
 	{"TXT.ERRORCODE", 0x30, 4, func(d registers.TXTConfigSpace) (registers.Register, error) { return registers.ReadTxtErrorCode(d) }},
-	{"TXT.SPAD", 0xa0, 8, func(d registers.TXTConfigSpace) (registers.Register, error) { return registers.ReadTXTBootStatusRegister(d) }},
+	{"TXT.SPAD", 0xa0, 8, func(d registers.TXTConfigSpace) (registers.Register, error) {
+		return registers.ReadTXTBootStatusRegister(d)
+	}},
 	{"TXT.VER.FSBIF", 0x100, 4, func(d registers.TXTConfigSpace) (registers.Register, error) { return registers.ReadTXTVerFSBIF(d) }},
-	{"TXT.DIDVID", 0x110, 8, func(d registers.TXTConfigSpace) (registers.Register, error) { return registers.ReadTXTDeviceIDRegister(d) }},
+	{"TXT.DIDVID", 0x110, 8, func(d registers.TXTConfigSpace) (registers.Register, error) {
+		return registers.ReadTXTDeviceIDRegister(d)
+	}},
 	{"TXT.VER.EMIF", 0x200, 4, func(d registers.TXTConfigSpace) (registers.Register, error) { return registers.ReadTXTVerEMIF(d) }},
 	{"TXT.SINIT.BASE", 0x270, 4, func(d registers.TXTConfigSpace) (registers.Register, error) { return registers.ReadTXTSInitBase(d) }},
 	{"TXT.SINIT.SIZE", 0x278, 4, func(d registers.TXTConfigSpace) (registers.Register, error) { return registers.ReadTXTSInitSize(d) }},
 	{"TXT.MLE.JOIN", 0x290, 4, func(d registers.TXTConfigSpace) (registers.Register, error) { return registers.ReadTXTMLEJoin(d) }},
 	{"TXT.HEAP.BASE", 0x300, 4, func(d registers.TXTConfigSpace) (registers.Register, error) { return registers.ReadTXTHeapBase(d) }},
 	{"TXT.HEAP.SIZE", 0x308, 4, func(d registers.TXTConfigSpace) (registers.Register, error) { return registers.ReadTXTHeapSize(d) }},
-	{"ACM_STATUS", 0x328, 4, func(d registers.TXTConfigSpace) (registers.Register, error) { return registers.ReadACMStatusRegister(d) }},
-	{"TXT.DPR", 0x330, 4, func(d registers.TXTConfigSpace) (registers.Register, error) { return registers.ReadTXTDMAProtectedRangeRegister(d) }},
-	{"ACM_POLICY_STATUS", 0x378, 8, func(d registers.TXTConfigSpace) (registers.Register, error) { return registers.ReadACMPolicyStatusRegister(d) }},
-	{"TXT.PUBLIC.KEY", 0x400, 32, func(d registers.TXTConfigSpace) (registers.Register, error) { return registers.ReadTXTPublicKeyRegister(d) }},
+	{"ACM_STATUS", 0x328, 4, func(d registers.TXTConfigSpace) (registers.Register, error) {
+		return registers.ReadACMStatusRegister(d)
+	}},
+	{"TXT.DPR", 0x330, 4, func(d registers.TXTConfigSpace) (registers.Register, error) {
+		return registers.ReadTXTDMAProtectedRangeRegister(d)
+	}},
+	{"ACM_POLICY_STATUS", 0x378, 8, func(d registers.TXTConfigSpace) (registers.Register, error) {
+		return registers.ReadACMPolicyStatusRegister(d)
+	}},
+	{"TXT.PUBLIC.KEY", 0x400, 32, func(d registers.TXTConfigSpace) (registers.Register, error) {
+		return registers.ReadTXTPublicKeyRegister(d)
+	}},
 }
 
 // txtAreaEnd: first offset behind the last documented register
@@ -266,8 +282,13 @@ func judgeRead(img []byte, regs registers.Registers, rerr error) string {
 }
 
 // errObs: the observable part of the error ReadTXTRegisters returned, for the model: per entry
-// of the MultiError the register ID and 0 = io.EOF, 1 = io.ErrUnexpectedEOF, 2 = anything else.
-func errObs(err error) []string {
+// of the MultiError the register it is about and 0 = io.EOF, 1 = io.ErrUnexpectedEOF, 2 = anything
+// else.  Nothing here depends on the WORDING of the messages (the property does not): the cause is
+// taken with errors.Is where the entry wraps it; an entry that carries its cause only as text
+// (fmt %v, the code as it stands) is given the cause the image length dictates when that entry is
+// the one the length dictates, and the register is the i-th register (in the order of the
+// collection) that does not lie inside an image of this length.
+func errObs(err error, ilen int) []string {
 	if err == nil {
 		return nil
 	}
@@ -282,24 +303,35 @@ func errObs(err error) []string {
 	default:
 		list = []error{err}
 	}
-	var out []string
-	for _, e := range list {
-		msg := "<nil>"
-		if e != nil {
-			msg = e.Error()
+	type miss struct {
+		id   string
+		kind int
+	}
+	var missing []miss
+	for _, d := range txtRegs {
+		switch {
+		case d.off+d.n <= ilen:
+		case d.off >= ilen:
+			missing = append(missing, miss{d.id, 0})
+		default:
+			missing = append(missing, miss{d.id, 1})
 		}
-		id, kind := msg, 2
-		const pre, mid = "failed to fetch MSR register ", ", err: "
-		if strings.HasPrefix(msg, pre) {
-			if k := strings.LastIndex(msg, mid); k >= len(pre) {
-				id = msg[len(pre):k]
-				switch msg[k+len(mid):] {
-				case "EOF":
-					kind = 0
-				case "unexpected EOF":
-					kind = 1
-				}
-			}
+	}
+	var out []string
+	for i, e := range list {
+		id, kind := "<no such register>", 2
+		if i < len(missing) {
+			id = missing[i].id
+		}
+		switch {
+		case e == nil:
+		case errors.Is(e, io.ErrUnexpectedEOF):
+			kind = 1
+		case errors.Is(e, io.EOF):
+			kind = 0
+		case errors.Unwrap(e) == nil && i < len(missing):
+			// the cause is not reachable structurally: the entry only says that the read failed
+			kind = missing[i].kind
 		}
 		out = append(out, fmt.Sprintf("(%s, %d)", gal.Str2(id), kind))
 	}
